@@ -400,6 +400,16 @@ def one_case(ctx, rng, kind, stack, classical, tag, second_round=None):
         alpha = rng.choice([1.0, 0.5, 0.25])
         ev = BitstringCircuitEvaluator(wrapped, SHOTS, BitstringEvaluator(nq, lambda b: table[b]), alpha, init)
         desc = {"table": table, "alpha": alpha}
+    # concurrent callers may be DIFFERENT evaluators on the one wrapped primitive (the solver builds the main and the auxiliary evaluators on the
+    # same configured sampler), each with its own shot count: a batch then mixes pubs with different shots
+    shots_of = [SHOTS] * n_callers
+    evs = [ev] * n_callers
+    if is_sampler and n_callers > 1 and rng.random() < 0.6:
+        shots_of = [SHOTS >> (i % 3) for i in range(n_callers)]
+        rng.shuffle(shots_of)
+        evs = [ev if sh == SHOTS else (OperatorSamplerCircuitEvaluator(wrapped, sh, op, alpha, init) if kind == "operator_sampler"
+                                       else BitstringCircuitEvaluator(wrapped, sh, BitstringEvaluator(nq, lambda b: table[b]), alpha, init)) for sh in shots_of]
+        desc["shots_per_caller"] = shots_of
     callers = []
     for _ in range(n_callers):
         k = rng.randint(1, 3)
@@ -409,14 +419,15 @@ def one_case(ctx, rng, kind, stack, classical, tag, second_round=None):
            "callers": [{"circuits": [[(i.operation.name, [c.find_bit(q).index for q in i.qubits]) for i in c.data] for c in cs], "params": ps} for cs, ps in callers], **desc}
     ctx.case(inp, nontrivial=stack != "plain", tags=[tag, "kind:" + kind, "stack:" + stack, "classical" if classical else "quantum", f"callers:{n_callers}",
                                                       "init:none" if init is None else ("init:with-cregs" if init.num_clbits else "init:plain"),
-                                                      "evaluator-reused" if second_round else "evaluator-used-once"])
+                                                      "evaluator-reused" if second_round else "evaluator-used-once",
+                                                      "shots:mixed-per-caller" if len(set(shots_of)) > 1 else "shots:uniform"])
 
     results = [None] * n_callers
     errors = []
 
     def call(i):
         try:
-            results[i] = ev.evaluate_circuits(callers[i][0], callers[i][1])
+            results[i] = evs[i].evaluate_circuits(callers[i][0], callers[i][1])
         except Exception as e:  # noqa: BLE001
             import traceback
 
@@ -456,7 +467,7 @@ def one_case(ctx, rng, kind, stack, classical, tag, second_round=None):
                     pairs = [(pr, f(b)) for b, pr in probs.items()]
                     want = cvar(pairs, alpha)
                     maxf = max(abs(f(format(j, f"0{nq}b"))) for j in range(2**nq))
-                    tol = 2 * (2**nq) * maxf / (alpha * SHOTS) + 4 * (1e-8 + 1e-5 * alpha) * maxf / alpha + 1e-9
+                    tol = 2 * (2**nq) * maxf / (alpha * shots_of[ci]) + 4 * (1e-8 + 1e-5 * alpha) * maxf / alpha + 1e-9
                 if abs(got[i] - want) > tol:
                     what = "an evaluator's value differs from the objective of initial-state + bound circuit (beyond the primitive's resolution)"
                     if round_no:
@@ -497,6 +508,7 @@ def one_case(ctx, rng, kind, stack, classical, tag, second_round=None):
             check_values(1)
         for i in range(n_callers):
             results[i] = saved[i]
+    grown = callers  # the caller's own circuit objects (possibly grown in place since the first round)
     callers = callers0
     first_batches = prim.batches[:n_first]
 
@@ -517,7 +529,7 @@ def one_case(ctx, rng, kind, stack, classical, tag, second_round=None):
                 exp = c if init is None else init.compose(c, inplace=False)
                 if is_sampler:
                     exp = exp.measure_all(inplace=False)
-                if exp == circ:
+                if exp == circ or circ is grown[0][0][j]:  # (a pub may hold the caller's circuit object itself, which the second round grew in place)
                     k = j
                     break
             sym = None if k is None else (f"c{k}" if init is None else f"compose(init,c{k})")
